@@ -34,7 +34,13 @@ def _vspec(rng, g, kind=None, elem=None):
         e = elem if rng.random() < 0.85 else rng.choice(['none', 'nan', 'longstr', 'str', 'float'])
         if rng.random() < 0.08:
             # the caller's data source fails while it is being read (or, as a control, works)
-            return {'k': 'seq', 'c': 'faulty-' + rng.choice(['getitem', 'getitem', 'seq', 'seq', 'array', 'len']), 'len': rng.choice(['n', 'n', 'n', 1]), 'e': elem, 'base': base, 'at': rng.choice([None, 0, 1, 2, 5, -1])}
+            vs_ = {'k': 'seq', 'c': 'faulty-' + rng.choice(['getitem', 'getitem', 'seq', 'seq', 'array', 'len']), 'len': rng.choice(['n', 'n', 'n', 1]), 'e': elem, 'base': base, 'at': rng.choice([None, 0, 1, 2, 5, -1])}
+            if rng.random() < 0.4:
+                # a data source backed by the very object it is being assigned to: it reads from it while it is being read
+                vs_['cb'] = rng.choice(['copy', 'values', 'frame', 'read', 'read', 'eval', 'reindex'])
+                if rng.random() < 0.6:
+                    vs_['at'] = None
+            return vs_
         return {'k': 'seq', 'c': c, 'len': ln, 'e': e, 'base': base}
     if k == 'nested':
         return {'k': 'nested', 'rows': rng.choice(['n', 'n', 'n', 'n-1', 1]), 'cols': rng.choice([1, 2, 2]), 'e': elem if elem in ('float', 'int') else 'float', 'base': base}
@@ -915,13 +921,20 @@ def execute(schedule, ctx):
         if isinstance(v_, RC.Faulty):
             made.append(v_)
             ctx.probe('faulty-operand:' + v_.mode + (':working' if v_.at is None else ''))
+            if vs.get('cb'):
+                v_.cb, v_.where = vs['cb'], cur
         return v_
+
+    cur = {'obj': None}
 
     for step, op in enumerate(schedule['ops']):
         ctx.step = step
         for v_ in made:
             for _ in range(v_.fired):
                 ctx.fault('data-source-error:' + v_.mode)
+            for _ in range(v_.called):
+                ctx.fault('operand-reads-back-from-the-object')
+                ctx.probe('re-entrant-operand:' + str(v_.cb))
         del made[:]
         i = op.get('obj', 0)
         if i >= len(parties):
@@ -929,6 +942,7 @@ def execute(schedule, ctx):
             continue
         party = parties[i]
         x = party.obj
+        cur['obj'] = x
         d = x.__dict__
         n = party.n
         kind = op['op']
